@@ -12,6 +12,7 @@ mod c04;
 mod c06;
 mod c10;
 mod c12;
+mod c13;
 mod c15;
 mod c17;
 mod c18;
@@ -76,6 +77,7 @@ fn main() {
     "C08" => c08::run(&ctx),
     "C10" => c10::run(&ctx),
     "C12" => c12::run(&ctx),
+    "C13" => c13::run(&ctx),
     "C15" => c15::run(&ctx),
     "C17" => c17::run(&ctx),
     "C18" => c18::run(&ctx),
